@@ -19,6 +19,7 @@ def run(rep, tier, seed):
         fails = []
         if out[0] == 'EXC' and out[1] != 'ParserError':
             fails.append('%s parser: %s on a %d-bit %s input' % (stack, out[1], len(bits), klass))
+        pc.bytes_case(b, stack, bits, stack)
         b.add('%s:%s' % (stack, klass), pc.model_line(stack, bits), out, pc.parse_model, fails,
               dict(layer='parser', op='parse', stack=stack, bits=bits), key=(stack, bits))
     b.run()
